@@ -8,6 +8,8 @@ import Lean.Data.Json
 import J2M.Pipeline
 import J2M.Render
 import J2M.Lex
+import J2M.Header
+import J2M.Cli
 namespace J2M.Codec
 open Lean (Json)
 
@@ -64,6 +66,15 @@ where
       match p.toList with
       | [.str k, v] => do pure (k, ← decTy v)
       | _ => err "bad field")
+
+partial def encJsonV : J2M.Json → J
+  | .null => .arr #[.str "n"]
+  | .bool b => .arr #[.str "b", .bool b]
+  | .int i => .arr #[.str "i", .str (toString i)]
+  | .float _ => .arr #[.str "f"]
+  | .str s => .arr #[.str "s", .str s]
+  | .arr xs => .arr #[.str "a", .arr (xs.map encJsonV).toArray]
+  | .obj kvs => .arr #[.str "o", .arr (kvs.map (fun (k, v) => Lean.Json.arr #[.str k, encJsonV v])).toArray]
 
 def decFields (j : J) : Except String Fields := do
   match ← decTy (.arr #[.str "obj", j]) with
